@@ -33,10 +33,12 @@
 package main
 
 import (
+	"bytes"
 	"encoding/json"
 	"fmt"
 	"io"
 	"os"
+	"os/exec"
 	"path/filepath"
 	"runtime"
 	"sort"
@@ -1301,10 +1303,151 @@ func sizeOf(c caseIn) int {
 	return n
 }
 
+// ---------- crash isolation ----------
+//
+// The cases run in a child process (this binary again, H19_CHILD_IN / H19_CHILD_OUT set), which
+// appends one JSON line per finished case.  A panic in a goroutine the writer itself started —
+// e.g. a hand-over goroutine sending on the channel that Close has closed — cannot be recovered
+// by the harness and kills the child; the parent then records the case that was running as a
+// CCrash case (monitor code 12) and starts a new child with the next one.
+
+type wireCase struct {
+	Term    string          `json:"term"`
+	Kind    string          `json:"kind"`
+	Obs     json.RawMessage `json:"obs"`
+	Skipped bool            `json:"skipped,omitempty"`
+	Leaked  int             `json:"leaked"`
+}
+
+type result struct {
+	in caseIn
+	c  gen.Case
+}
+
+func runChild(inFile, outFile string) {
+	raw, err := os.ReadFile(inFile)
+	if err != nil {
+		panic(err)
+	}
+	var inputs []caseIn
+	if err := json.Unmarshal(raw, &inputs); err != nil {
+		panic(err)
+	}
+	out, err := os.OpenFile(outFile, os.O_CREATE|os.O_WRONLY|os.O_APPEND, 0o644)
+	if err != nil {
+		panic(err)
+	}
+	defer out.Close()
+	emit := func(w wireCase) {
+		b, _ := json.Marshal(w)
+		out.Write(append(b, '\n'))
+	}
+	stuckCases := 0
+	for _, in := range inputs {
+		var c gen.Case
+		if in.Race != nil {
+			c = runRace(*in.Race)
+		} else {
+			if stuckCases >= 5 {
+				// enough evidence; every further case would cost the settle timeout again
+				emit(wireCase{Skipped: true, Leaked: leakedWaiters})
+				continue
+			}
+			var stuck bool
+			c, stuck = runSched(in)
+			if stuck {
+				stuckCases++
+			}
+		}
+		obs, _ := json.Marshal(c.Obs)
+		emit(wireCase{Term: c.Term, Kind: c.Kind, Obs: obs, Leaked: leakedWaiters})
+	}
+}
+
+func runIsolated(o gen.Opts, inputs []caseIn) (results []result, leaked int) {
+	inFile := filepath.Join(o.Out, "h19_child_in.json")
+	outFile := filepath.Join(o.Out, "h19_child_out.jsonl")
+	defer os.Remove(inFile)
+	defer os.Remove(outFile)
+	crashes := 0
+	for next := 0; next < len(inputs); {
+		b, _ := json.Marshal(inputs[next:])
+		if err := os.WriteFile(inFile, b, 0o644); err != nil {
+			panic(err)
+		}
+		os.Remove(outFile)
+		cmd := exec.Command(os.Args[0], os.Args[1:]...)
+		cmd.Env = append(os.Environ(), "H19_CHILD_IN="+inFile, "H19_CHILD_OUT="+outFile)
+		var stderr bytes.Buffer
+		cmd.Stderr = &stderr
+		cmd.Stdout = io.Discard
+		err := cmd.Run()
+		done := 0
+		if raw, rerr := os.ReadFile(outFile); rerr == nil {
+			for _, line := range bytes.Split(raw, []byte{'\n'}) {
+				if len(bytes.TrimSpace(line)) == 0 {
+					continue
+				}
+				var w wireCase
+				if json.Unmarshal(line, &w) != nil {
+					break // a half-written last line
+				}
+				if next+done >= len(inputs) {
+					break
+				}
+				leaked = w.Leaked
+				if !w.Skipped {
+					results = append(results, result{inputs[next+done],
+						gen.Case{Term: w.Term, Kind: w.Kind, Input: inputs[next+done], Obs: w.Obs}})
+				}
+				done++
+			}
+		}
+		next += done
+		if next >= len(inputs) {
+			break
+		}
+		if err == nil {
+			// the child ended normally without finishing its list: should not happen
+			fmt.Fprintln(os.Stderr, "h19: child stopped early without an error")
+			os.Exit(2)
+		}
+		// the child died while running inputs[next]
+		msg := stderr.String()
+		first, kind := "", 0
+		for _, l := range strings.Split(msg, "\n") {
+			if strings.HasPrefix(l, "panic:") || strings.HasPrefix(l, "fatal error:") {
+				first = l
+				break
+			}
+		}
+		if strings.Contains(first, "send on closed channel") {
+			kind = 1
+		}
+		if len(msg) > 3000 {
+			msg = msg[:3000]
+		}
+		results = append(results, result{inputs[next], gen.Case{
+			Term: fmt.Sprintf("CCrash %d", kind), Kind: "crash", Input: inputs[next],
+			Obs: map[string]string{"died_with": first, "exit": err.Error(), "stderr": msg}}})
+		next++
+		crashes++
+		if crashes >= 3 {
+			break // enough evidence
+		}
+	}
+	return
+}
+
 func main() {
 	o := gen.ParseFlags()
 	logrus.SetOutput(io.Discard)
 	logrus.SetLevel(logrus.PanicLevel)
+
+	if in := os.Getenv("H19_CHILD_IN"); in != "" {
+		runChild(in, os.Getenv("H19_CHILD_OUT"))
+		return
+	}
 
 	var inputs []caseIn
 	if o.Replay != "" {
@@ -1388,24 +1531,22 @@ func main() {
 
 	var cases []gen.Case
 	stats := map[string]int{}
-	stuckCases := 0
-	for _, in := range inputs {
+	results, leaked := runIsolated(o, inputs)
+	for _, res := range results {
+		in := res.in
+		cases = append(cases, res.c)
+		if res.c.Kind == "crash" {
+			stats["crashed_cases"]++
+		}
 		if in.Race != nil {
-			c := runRace(*in.Race)
-			cases = append(cases, c)
-			m := c.Obs.(map[string]int)
+			var m map[string]int
+			if raw, ok := res.c.Obs.(json.RawMessage); ok {
+				_ = json.Unmarshal(raw, &m)
+			}
 			stats[fmt.Sprintf("race%d_trials", in.Race.Mode)] += m["trials"]
 			stats[fmt.Sprintf("race%d_hangs", in.Race.Mode)] += m["hangs"]
 			stats[fmt.Sprintf("race%d_lost", in.Race.Mode)] += m["lost"]
 			continue
-		}
-		if stuckCases >= 5 {
-			continue // enough evidence; every further case would cost the settle timeout again
-		}
-		c, stuck := runSched(in)
-		cases = append(cases, c)
-		if stuck {
-			stuckCases++
 		}
 		// measured input distribution
 		prods := map[int]bool{}
@@ -1456,7 +1597,7 @@ func main() {
 		}
 		stats[fmt.Sprintf("producers_%d", len(prods))]++
 	}
-	extra := map[string]any{"stats": stats, "leaked_waiting_writers": leakedWaiters}
+	extra := map[string]any{"stats": stats, "leaked_waiting_writers": leaked}
 	if err := gen.WriteCases(o, "C19", "From Verif Require Import Common EventWriter.", "c19_case", "report19", cases, extra); err != nil {
 		panic(err)
 	}
